@@ -1125,6 +1125,26 @@ def kindRef (doc : TsDoc) (k : TypeKind) : List TsItem := (typeDefs k doc).map f
 
 def schemaRef (doc : TsDoc) : List TsItem := (schemaDefs doc).map fun s => .schemaDef (refSchema doc s)
 
+theorem map_dirsOf (doc : TsDoc) : (dirsOf doc).map TsItem.directiveDef = directiveDefs doc := by
+  unfold dirsOf directiveDefs
+  induction doc with
+  | nil => rfl
+  | cons it r ih => cases it <;> simp_all [List.filterMap_cons]
+
+theorem length_defs (D : TsDoc) : ∀ l : TsDoc,
+    (directiveDefs l).length + (l.filterMap (refItem? D)).length = (l.filter fun it => !isExt it).length := by
+  intro l
+  induction l with
+  | nil => rfl
+  | cons x r ih =>
+    cases x <;> simp [directiveDefs, refItem?, isExt, List.filterMap_cons, List.filter_cons] at ih ⊢ <;> omega
+
+theorem schemaDefs_append (a b : TsDoc) : schemaDefs (a ++ b) = schemaDefs a ++ schemaDefs b := by
+  simp [schemaDefs, List.filterMap_append]
+
+theorem typeDefs_append (k : TypeKind) (a b : TsDoc) : typeDefs k (a ++ b) = typeDefs k a ++ typeDefs k b := by
+  simp [typeDefs, List.filterMap_append]
+
 theorem mem_kindOrder (k : TypeKind) : k ∈ kindOrder := by cases k <;> simp [kindOrder]
 
 theorem noDup_of_scan (doc : TsDoc) (st : St) (h : scan {} doc = .ok st) : NoDupOriginal doc := by
